@@ -29,6 +29,17 @@ theorem c09_legal_transitions (cfg : Cfg) (s : State) (op : Op) :
   rintro rfl
   simp [step, reset]
 
+/-- The transitions do happen: `start` takes a NASCENT lifecycle to ACTIVE, `trigger_apoptosis` takes every
+    non-terminated lifecycle to APOPTOTIC, `terminate` takes every lifecycle to TERMINATED. -/
+theorem c09_end_states_reached (cfg : Cfg) (s : State) :
+    (s.phase = .nascent → (step cfg s .start).st.phase = .active) ∧
+    (s.phase ≠ .terminated → (step cfg s .apo).st.phase = .apoptotic) ∧
+    (step cfg s .term).st.phase = .terminated := by
+  refine ⟨?_, ?_, ?_⟩
+  · intro h; simp [step, start, started, h]
+  · intro h; simp [step, apoptosis, h]
+  · simp [step, terminate]
+
 /-- TERMINATED is absorbing: from a terminated lifecycle no history without `reset` leads anywhere else. -/
 theorem c09_terminated_absorbing (cfg : Cfg) (s : State) (h : s.phase = .terminated) (ops : List Op)
     (hr : ∀ op ∈ ops, op ≠ .reset) : (run cfg s ops).phase = .terminated := by
